@@ -630,6 +630,13 @@ def directive_names_pass(rng, rec):
             if rng.random() < 0.5:
                 kd["vn"] = "v.strict-2"  # = sim.resources.V2_NAME; (matters when the uri carries a validate directive, also a per-request one)
         knobs["dir_order_rev"] = rng.random() < 0.5
+    if rec["property"] == "C18" and knobs.get("api") == "module" and rng.random() < 0.3:
+        # (module-level API) an attempt to create a second named cache on the same directory
+        nid = max([o["id"] for o in ops if isinstance(o["id"], int)] + [0]) + 1
+        at = rng.randint(1, len(ops))
+        if ops[at - 1]["op"] in ("FOREIGN", "EDIT_CONFIG") and at < len(ops) and ops[at]["op"] == "REOPEN":
+            at += 1
+        ops.insert(at, {"id": nid + 750, "op": "SAMEDIR", "dt": 1000, "spell": rng.randint(0, 3)})
     if rng.random() < 0.15 and not knobs.get("wide"):
         nid = max([o["id"] for o in ops if isinstance(o["id"], int)] + [0]) + 1
         for j in range(rng.randint(1, 3)):
